@@ -1,4 +1,7 @@
-import ApiFu.C08.G3b
+/-
+  C08 — helper lemmas: AckInv: nothing but connection errors before the ack of a successful init (queue order, log, pending sends).
+-/
+import ApiFu.C08.LemmasSend
 namespace ApiFu.C08
 
 /-! ### G3c: nothing but connection errors before the ack -/
